@@ -22,7 +22,8 @@ PROP = {
     ],
     "theorem_notes": {
         "C01_statement": "stated, not proved in full (equivalence of two ~800-line programs); proved parts: C01_sets, C01_schemes, C01_preprocessing, C01_override_independent, C01_eq_cleaning, C01_eq_encoders, C01_eq_scheme_state and the class theorems below",
-        "C01_partial": "C01_statement restricted to in_proved_class (recognisers on the Standard's side) with bases given as a pair (model record, Standard record) in the relation `related` (wf_b, same ten API strings, same text before fragment/query, same scheme, same cannot-be-a-base, Standard record without host/credentials/port where its states assume so); outcome relation `agree`: Standard success -> model success with the same ten API strings OR ParseError::Overflow (named restriction: serialization > u32::MAX), Standard failure -> model Err; encoding override None; usv_list input. Classes so far: opaque (no base), fragment-only, query-only (base without opaque path), opaque-base failure. NOT covered: authority, special schemes without base, file, path state with a base, port/host states",
+        "C01_partial": "C01_statement restricted to in_proved_class (recognisers on the Standard's side) with bases given as a pair (model record, Standard record) in the relation `related` (wf_b, same ten API strings, same text before fragment/query, same scheme, same cannot-be-a-base, Standard record without host/credentials/port where its states assume so); outcome relation `agree`: Standard success -> model success with the same ten API strings OR ParseError::Overflow (named restriction: serialization > u32::MAX), Standard failure -> model Err; encoding override None; usv_list input. Classes: opaque (no base), path-only 'scheme:/path' non-special without authority (no base), fragment-only, query-only (base without opaque path), opaque-base failure. NOT covered: authority (userinfo/host/port states), special schemes without base, file, path state with a base (relative references other than '#'/'?')",
+        "C01_eq_pathonly": "equivalence PROVED for in_class_pathonly (no base, non-special scheme, text after ':' starts with exactly one '/'): path state incl. dot segments in every spelling, '/.' marker, query, fragment; exact exclusion computed on the Standard's state: a '..' that would pop a drive-letter-shaped segment (finding F-C01-9, shown necessary by the Example); usv_list input; Overflow disjunct as above; result is a `related` base",
         "C01_eq_fragment_only": "for every `related` base (also cannot-be-a-base ones); result related again",
         "C01_eq_query_only": "for every `related` base without opaque path (special / file / other: the query set follows the base scheme); result related again",
         "C01_eq_opaque_base_fail": "failure on both sides (model: RelativeUrlWithCannotBeABaseBase)",
